@@ -34,6 +34,8 @@ _BASES = [
     b'HTTP/1.1 200 OK\r\nTransfer-Encoding: chunked\r\n\r\n3;x=1\r\nabc\r\n0\r\nT: v\r\n\r\n',
     b'HTTP/1.0 302 Found\r\nLocation: /x\r\nContent-Encoding: gzip\r\n\r\n\x1f\x8b\x08\x00',
     b'HTTP/1.1 200 OK\r\nContent-Length: 0\r\nX-Fold: a\r\n\tb\r\n\r\n',
+    b'HTTP/1.0 200 OK\r\nContent-Encoding: deflate\r\n\r\n' + __import__('zlib').compress(b'hello'),
+    b'HTTP/1.0 200 OK\r\nContent-Encoding: gzip\r\n\r\n' + __import__('gzip').compress(b'hello', mtime=0),
 ]
 _BYTES = [0x00, 0x0a, 0x0d, 0x20, 0x3a, 0x3b, 0x80, 0xff, 0x2d, 0x67, 0x2b, 0x31, 0x09, 0x25]
 
@@ -122,7 +124,8 @@ def _ftp_control(l1, l2, l3, n, op, eof):
 # ---------------------------------------------------------------- FTP listings
 _TOK = ['00', '12-31-99', '01-01-1970', '10:30PM', '10:30', '<DIR>', '1,234', '-rw-r--r--', 'drwxr-xr-x', 'lrwxrwxrwx', '1', 'user', '4096',
         'Jan', '31', '2020', 'file name', '->', 'x', '', '99999999999999999999', '13-13-13', 'AM', '\u0663', '??', 'type=file;', 'size=x;',
-        'modify=20200101;', 'modify=99999999999999;', ' name', '=', ';', '\x00', '\xe9', 'Feb 30 10:00', 'total 5', 'type=dir;size=1; d']
+        'modify=20200101;', 'modify=99999999999999;', ' name', '=', ';', '\x00', '\xe9', 'Feb 30 10:00', 'total 5', 'type=dir;size=1; d',
+        '04-27-100', '02-09-123', '1-1-1', '00-00-0000', '12-31-9', '2020-13-45', '99:99', '10:30XM']
 
 
 def _ftp_listing(t1, t2, t3, t4, ntok, t5, t6, nlines, mlsd):
@@ -258,7 +261,7 @@ HARNESSES = [
       timeout={'quick': 250, 'thorough': 1800}, samples=[(0, 0, 5, 0, 0), (1, 1, 60, 0, 1), (1, 3, 70, 0, 0)], need=['remote-error', 'ok'],
       funcs=['wpull/protocol/http/stream.py:Stream.read_response', 'wpull/protocol/http/stream.py:Stream.read_body', 'wpull/protocol/http/request.py:Response.parse',
              'wpull/protocol/http/request.py:Response.parse_status_line', 'wpull/namevalue.py:NameValueRecord.parse', 'wpull/protocol/http/chunked.py:ChunkedTransferReader.read_chunk_header'],
-      doc='four valid responses (Content-Length, chunked+extension+trailer, gzip redirect, folded header) with one byte replaced / inserted at '
+      doc='six valid responses (Content-Length, chunked+extension+trailer, gzip redirect, folded header, deflate and gzip bodies read until close) with one byte replaced / inserted at '
           'EVERY position (10-14 odd byte values), truncated at every position, or a line dropped: Stream.read_response + read_body succeed or '
           'raise one of the four per-URL error kinds'),
     H('http_free', '_http_free', 'data: bytes, prefix_i: int', pre={'quick': ['len(data) <= 3 and 0 <= prefix_i <= 3'], 'thorough': ['len(data) <= 5 and 0 <= prefix_i <= 3']},
@@ -277,7 +280,7 @@ HARNESSES = [
     H('ftp_listing', '_ftp_listing', 't1: int, t2: int, t3: int, t4: int, ntok: int, t5: int, t6: int, nlines: int, mlsd: bool',
       pre=[' and '.join('0 <= t%d < %d' % (i, len(_TOK)) for i in range(1, 7)) + ' and 1 <= ntok <= 4 and 1 <= nlines <= 2'],
       parts={'quick': [{'tag': 'n%d_%s' % (n, 'mlsd' if m else 'list'), 'fix': {'ntok': str(n), 't3': '0' if n < 3 else None, 't4': '0', 'nlines': '1', 't5': '0', 't6': '0', 'mlsd': str(m)},
-                        'pre': ['t1 <= 15 and t2 <= 15 and t3 <= 15'] if n == 3 else []}
+                        'pre': ['(t1 <= 12 or t1 >= 37) and (t2 <= 12 or t2 >= 37) and t3 <= 12'] if n == 3 else []}
                        for n in (1, 2, 3) for m in (False, True) if not (n == 3 and m)],
              'thorough': [{'tag': 'n%d_l%d_%s' % (n, l, 'mlsd' if m else 'list'), 'fix': {'ntok': str(n), 'nlines': str(l), 'mlsd': str(m), 't4': '5', 't6': '1'}}
                           for n in (2, 3, 4) for l in (1, 2) for m in (False, True)]},
@@ -286,7 +289,7 @@ HARNESSES = [
       funcs=['wpull/protocol/ftp/client.py:Session.download_listing', 'wpull/protocol/ftp/ls/listing.py:ListingParser.parse_input',
              'wpull/protocol/ftp/ls/listing.py:LineParser.parse_msdos', 'wpull/protocol/ftp/ls/listing.py:LineParser.parse_unix',
              'wpull/protocol/ftp/ls/date.py:parse_datetime', 'wpull/protocol/ftp/util.py:parse_machine_listing'],
-      doc='directory listings assembled from a pool of 37 hostile tokens (1-3 tokens per line in the quick tier), LIST and MLSD: '
+      doc='directory listings assembled from a pool of 45 hostile tokens (dates with 1-4 digit years, impossible days / times, grouping characters ...) (1-3 tokens per line in the quick tier), LIST and MLSD: '
           'Session.download_listing post-processing succeeds or raises a per-URL error kind'),
     H('ftp_processor_faults', '_ftp_processor_faults', 'where_i: int, err_i: int, url_i: int, lt: int',
       pre=['0 <= where_i <= 4 and 0 <= err_i <= 4 and 0 <= url_i <= 2 and 0 <= lt <= 2'], timeout={'quick': 250, 'thorough': 600},
